@@ -1,5 +1,5 @@
 // govc:pkg .
-// govc:bound HAVING: 5 aggregates x 2 columns x {>,<,>=} x 3 thresholds singly, and 40 AND/OR pairs of unselected aggregates (about 130 queries); SELECT items: 9 item shapes x aggregates {sum,avg,min,max,count} x columns {v,w} x operators {+,-,*,/} x literals {2,0.5,32} on one fixed batch of 3 groups x 3 rows (about 500 queries)
+// govc:bound HAVING: 5 aggregates x 2 columns x {>,<,>=} x 3 thresholds singly, and 40 AND/OR pairs of unselected aggregates (about 130 queries); SELECT items: 12 item shapes (incl. parenthesised literal operands) x aggregates {sum,avg,min,max,count} x columns {v,w} x operators {+,-,*,/} x literals {2,0.5,32} on one fixed batch of 3 groups x 3 rows (about 700 queries)
 // Bounded stand-in (NOT a proof): SELECT items that combine aggregate calls, literals and arithmetic, executed through
 // the real engine (Execute / Emit / sync sink) against a relational oracle computed from the same rows. The classification
 // and rewriting of such items (rsql/ast.go, aggregator/post_aggregation.go) is regular-expression based and outside the
@@ -94,6 +94,10 @@ func govcItems() []govcItem {
 				out = append(out, govcItem{l.s + " " + op + " " + ac, govcBin(op, govcLit(l.x), av)})
 				out = append(out, govcItem{ac + " * 1.8 " + op + " " + l.s, govcBin(op, govcBin("*", av, govcLit(1.8)), govcLit(l.x))})
 				out = append(out, govcItem{"(" + ac + " " + op + " " + l.s + ") * 2", govcBin("*", govcBin(op, av, govcLit(l.x)), govcLit(2))})
+				// a parenthesised literal operand after / before the single aggregate
+				out = append(out, govcItem{ac + " " + op + " (" + l.s + ")", govcBin(op, av, govcLit(l.x))})
+				out = append(out, govcItem{ac + " " + op + " (1 + " + l.s + ")", govcBin(op, av, govcLit(1+l.x))})
+				out = append(out, govcItem{"(" + l.s + " * 2) " + op + " " + ac, govcBin(op, govcLit(l.x*2), av)})
 			}
 			for _, b := range aggs {
 				out = append(out, govcItem{fmt.Sprintf("%s(v) %s %s(w)", a, op, b), govcBin(op, govcAgg(a, "v", 1), govcAgg(b, "w", 1))})
